@@ -179,6 +179,7 @@ func (e *Engine) explore(name string, fn *ssa.Function, cfg Config) *HarnessRun 
 		nw = 1
 	}
 	deadline := time.Now().Add(cfg.Wall)
+	setSolverDeadline(deadline.Add(30 * time.Second))
 	stopTick := make(chan struct{})
 	if e.verbose > 0 {
 		go func() {
